@@ -25,6 +25,14 @@ must equal the prediction of the endpoint's own model, tokens without endpoint /
 unanswered, and spy (2) must never see an endpoint drive tx.valid or request a handshake while the last good
 token addressed to the device does not carry its number and direction.
 
+OUT stream framing (first/last of every delivered byte) is part of the projected history as well, judged by
+*non-interference*: per session one OUT endpoint (the focus, consumer always ready) has its own transactions recorded
+(packets, byte gaps, lead-in) and replayed alone on a second, fresh, identically configured device; the delivered
+(byte, first, last) sequences must be identical (`out_framing_depends_on_other_endpoint_traffic`).  This keeps C12
+independent of the single-endpoint first/last rules (C13 and its open findings).  A directed pattern sends B foreign data
+bytes (other OUT endpoints, unpopulated numbers, other addresses, SETUP data) between two own packets with
+(B + L) % mps == 0 for a short packet of length L, or B % mps != 0 before a full packet.
+
 Not judged: behaviour of the control endpoint itself (C07-C10), response latency beyond generous windows,
 first/last flags of the OUT stream (C13), flush/discard of the IN stream (C11).  The OUT endpoints' buffers are never
 overflowed (a held consumer gets at most 2*mps-1 bytes): what the endpoint does on overflow is C13's subject.
@@ -48,10 +56,11 @@ REQUIRED_BINS = ["in_retry_across_foreign_ack", "in_retry_across_same_number_out
                  "foreign_address_out", "in_ack_withheld_silent", "in_ack_withheld_damaged", "out_damaged_data",
                  "out_wrong_toggle_sent", "sig_between_stream_transactions", "control_transfer_between", "in_zlp",
                  "absent_number_one_bit_from_populated", "fs60_session", "ping_nak",
-                 "foreign_ack_while_waiting_for_ack"]
+                 "foreign_ack_while_waiting_for_ack", "out_bytecount_alias_pattern"]
 REQUIRED_EVENTS = ["ep_tx_valid_cycles", "ep_handshake_requests", "in_data_packets", "in_acked", "in_naks", "out_acked_new",
                    "out_delivery_checks", "in_stream_bytes_accepted", "out_stream_bytes_delivered", "sig_transactions",
-                   "tokens_without_endpoint", "ping_transactions"]
+                   "tokens_without_endpoint", "ping_transactions", "out_framing_replays", "out_framing_beats_compared",
+                   "out_framing_first_flags", "out_framing_last_flags"]
 ASSUMPTIONS = ["legal host: one transaction at a time, waits for the response or a timeout, handshake within the turn-around time or not at all",
                "a NAK to IN is accepted unless the next packet has been complete for >= 25 cycles (60 at the 60 MHz tables)",
                "the control endpoint's own responses are not judged here",
@@ -74,6 +83,9 @@ def run_case(rng, tier, res):
     absent = [n for n in s.absent if n not in populated]
     one_bit = [n for n in absent if any(bin(n ^ p).count("1") == 1 for p in populated)]
     state = {"last": None, "unacked": {}, "out_failed": {}}
+    # the OUT endpoint whose stream framing is judged by non-interference (own transactions replayed alone)
+    focus = rng.choice(outs)
+    s.set_focus(focus)
     active = set()
 
     def note(key):
@@ -198,6 +210,50 @@ def run_case(rng, tier, res):
             yield from s.op_ping(n)
         state["last"] = (n, "absent")
 
+    def bytecount_pattern():
+        """Directed: between two own packets of the focus endpoint A the host sends B data bytes elsewhere such that a
+        per-packet byte counter that (wrongly) also counts foreign bytes mistakes A's short packet for a full one
+        ((B + L) % mps == 0), or a full packet for a short one (B % mps != 0)."""
+        A = focus
+        m = s.models[A]
+        M = m.mps
+        yield from do_out(A, choice="expected", fault=None)            # own commit: bookkeeping starts from zero
+        yield from s.gap()
+        if rng.random() < 0.7:
+            L = rng.randint(1, M - 1)
+            B = (M - L) + M * rng.choice([0, 0, 1])
+        else:
+            L = M
+            B = rng.randint(1, 2 * M - 1)
+            if B % M == 0:
+                B += 1
+        remaining = B
+        others = [k for k in outs if k != A and not s.consumer_hold.get(k)]
+        while remaining > 0:
+            kinds = ["absent", "absent", "foreign"] + (["other", "other", "other"] if others else []) + (["setup"] if remaining >= 8 else [])
+            kind = rng.choice(kinds)
+            if kind == "other":
+                k = rng.choice(others)
+                n = min(remaining, s.models[k].mps)
+                yield from do_out(k, choice="expected", fault=None, length=n)
+            elif kind == "absent":
+                n = min(remaining, 64)
+                cands = absent + [k[0] for k in wrong_dir if k[1] == "out"]
+                yield from s.op_out(rng.choice(cands), length=n)
+            elif kind == "foreign":
+                n = min(remaining, 64)
+                a = rng.choice([x for x in (1, 5, 64, 127) if x != s.addr])
+                yield from s.op_out(rng.choice(sorted(populated)), addr=a, length=n)
+            else:
+                n = 8                                                       # the 8 data bytes of a SETUP transaction
+                yield from s.op_control(U.setup_bytes(0x80, 0, 0, 0, 2))
+            remaining -= n
+            yield from s.gap()
+        yield from do_out(A, choice="expected", fault=None, length=L)
+        yield from s.gap()
+        yield from do_out(A, choice="expected", fault=None, length=rng.randint(1, M))   # start of the next transfer
+        res.bin("out_bytecount_alias_pattern")
+
     def driver():
         yield from s.start()
         if rng.random() < 0.5:
@@ -214,6 +270,11 @@ def run_case(rng, tier, res):
         while i < n_ops:
             i += 1
             r = rng.random()
+            if rng.random() < 0.07:
+                yield from bytecount_pattern()
+                i += 3
+                yield from s.gap()
+                continue
             if r < 0.16:
                 # directed: failed IN on A, complete transaction(s) elsewhere, retry on A
                 key = rng.choice(ins + [sig])
@@ -290,5 +351,7 @@ def run_case(rng, tier, res):
 
     s.b.add_driver(driver())
     s.b.run()
+    if not s.b.hit_max_cycles:
+        s.check_framing_noninterference()
     s.finish()
     res.nontrivial = bool(res.bins.get("in_retry_across_foreign_ack")) and len(active) >= 3
